@@ -3,6 +3,7 @@
   One request per line (first word selects the model family), one answer per line.
 -/
 import SolverzModel.Driver.C16
+import SolverzModel.Driver.C04
 open Solverz Solverz.Drv
 
 structure DState where
@@ -11,6 +12,7 @@ structure DState where
 def stepLine (st : DState) (line : String) : DState × String :=
   match words line with
   | "c16" :: ws => let (h, o) := C16.step st.c16 ws; ({ st with c16 := h }, o)
+  | "c04" :: ws => (st, C04.step ws)
   | [] => (st, "")
   | _ => (st, "bad-op")
 
